@@ -1213,6 +1213,11 @@ func (w *World) ifacePayload(b Term, t types.Type) Term {
 		if u.NumFields() == 0 {
 			return mkTerm(w, w.reg.zero(t), t)
 		}
+	case *types.Slice:
+		// an interface value remembers the backing array and the LENGTH of a slice it holds; offset and
+		// capacity are not recorded, so the slice that comes back is one of that length over that array
+		// at an uninterpreted offset (its elements are unconstrained: sound, imprecise)
+		return Term{fmt.Sprintf("(mk-slice (i-ref %s) (iface-slice-off %s) (i-bv %s) (i-bv %s))", b.S, b.S, b.S, b.S), "Slice", t}
 	}
 	panic(unsupported("type assertion to " + t.String()))
 }
